@@ -38,6 +38,9 @@ func runC07(r *Runner, g *Gen, tier string) string {
 	n := scale(tier, 300, 20000)
 	for i := 0; i < n; i++ {
 		f := schedFamilies[g.r.Intn(len(schedFamilies))]
+		if g.r.P(30) {
+			f = schedFamilies[len(schedFamilies)-1] // shared-codec decode
+		}
 		nt := 2 + g.r.Intn(2)
 		var s []int
 		for k := 0; k < 120; k++ {
